@@ -12,4 +12,10 @@ echo "--- demo on patched:"; (cd $S && PYTHONPATH=$W timeout 900 /venv/bin/pytho
 echo "--- demo on clean:";   (cd $S && PYTHONPATH=/repo timeout 900 /venv/bin/python demo.py 2>&1 | tail -2; echo "exit=${PIPESTATUS[0]}")
 rm -f $W/tenpy/linalg/_npc_helper*.so
 echo "--- check $P against patched tree:"
-cd "$(dirname "$0")/.." && VERIF_REPO=$W ./check $P --tier $T 2>&1 | grep -E "^\[|VIOLATION|KNOWN|problem" | cut -c1-300
+cd "$(dirname "$0")/.."
+cp evidence/$P.json /tmp/evid-$P-$$.json 2>/dev/null
+git stash list >/dev/null
+VERIF_REPO=$W ./check $P --tier $T 2>&1 | grep -E "^\[|VIOLATION|KNOWN|problem" | cut -c1-300
+# evidence and regenerated Lean tables must describe /repo, not the trial tree
+cp /tmp/evid-$P-$$.json evidence/$P.json 2>/dev/null; rm -f /tmp/evid-$P-$$.json
+git checkout -- lean/TenpyModel/Gen 2>/dev/null
